@@ -19,6 +19,7 @@ argument of every op selects it.
   getlvl2 <cfg> <file>                          <val> | ERR
   hist    <cfg> <file> <step>...               <K|E per step> <.PASSWDS'> <.post'>
             steps: F[:...] failed write | U:<fn>:<uid>:<val> | R:<uid>:<record> | A:<postlog record>
+  newbrd  <cfg> <bid> <record> <.BRD before>     <.BRD after> | ERR   (ptt.NewBoard; bid and record are observed)
   favfile <cfg> <ver> <n> <lastvisit> <attr> <k>  the .fav FavRaw.Save writes for boards 1..n | ERR
   xread   <cfg> <Type> <i> <image>              <val> | ERR      (decode with encoding/binary)
   xover   <cfg> <Type> <i> <image>              <val> | ERR      (struct overlaid on the bytes)
@@ -115,6 +116,10 @@ def stepC01 (_ : Unit) (ws : List String) : Unit × String :=
             let st := String.ofList (oks.map fun b => if b then 'K' else 'E')
             s!"{if st.isEmpty then "-" else st} {toHex s.passwd} {toHex s.post}"
           | _, _ => "bad-op"
+        | "newbrd", [bid, r, before] =>
+          match bid.toNat?, parseHex r, parseHex before with
+          | some b, some rr, some f => showOpt (brdNew c f b rr)
+          | _, _, _ => "bad-op"
         | "favfile", [ver, n, lv, attr, k] =>
           -- k = how many users save at the same time: the image does not depend on it
           match ver.toNat?, n.toNat?, lv.toNat?, attr.toNat?, k.toNat? with
